@@ -158,6 +158,10 @@ fn run_cases(t: &mut Tracer, family: &str, cases: &[Value], keep_input: bool) {
     }
 }
 
+fn trailer_only() -> Vec<u8> {
+    c07::newc_entry("TRAILER!!!", 0, &[], 0)
+}
+
 fn hexcase(b: &[u8], what: String) -> Value {
     json!({"hex": hex(b), "what": what})
 }
@@ -273,6 +277,35 @@ pub fn run(args: &Args) {
         let bytes = rawhdr::assemble(&lead_bytes("overlap"), &encode_wellformed(62, &[]), &big, b"", 0);
         cs.push(hexcase(&bytes, "500 string arrays over the same 30000 one-byte strings".into()));
         run_cases(&mut t, "overlap", &cs, false);
+    }
+    // (c4) text tags the accessors interpret (payload compressor, flags, architecture ...) holding unexpected texts: long,
+    // with multi-byte characters and with invalid UTF-8 at every position around the lengths code likes to cut at
+    {
+        let mut cs = vec![];
+        let mut texts: Vec<Vec<u8>> = vec![b"".to_vec(), b"lzma".to_vec(), vec![b'x'; 300], "é".repeat(40).into_bytes(), "日本".repeat(30).into_bytes()];
+        for cut in [3usize, 4, 5, 7, 8, 15, 16, 31, 32, 33, 63, 64, 65] {
+            for filler in ["é", "日", "\u{1F600}"] {
+                for shift in 0..filler.len() {
+                    let mut t = vec![b'a'; cut + 1 - filler.len().min(cut + 1) + shift];
+                    t.extend_from_slice(filler.as_bytes());
+                    t.extend_from_slice(b"tail-of-the-text");
+                    texts.push(t);
+                }
+            }
+            let mut t = vec![b'a'; cut.saturating_sub(1)];
+            t.extend_from_slice(&[0xFF, 0xFE, 0xC3]);
+            t.extend_from_slice(b"tail");
+            texts.push(t);
+        }
+        for (k, txt) in texts.iter().enumerate() {
+            let tag = [1125u32, 1126, 1022, 1021, 1124][k % 5];
+            let mut h: Vec<(u32, u32, Value)> = vec![(1000, T_STRING, json!(["x".as_bytes()])), (1004, T_I18N, json!(["s".as_bytes()]))];
+            h.push((tag, T_STRING, json!([txt])));
+            if tag != 1125 { h.push((1125, T_STRING, json!([txt]))); }
+            let b = rawhdr::assemble(&lead_bytes("texts"), &encode_wellformed(62, &[]), &encode_wellformed(63, &h), &trailer_only(), 0);
+            cs.push(hexcase(&b, format!("text tag {tag} (and the payload compressor) of {} bytes, case {k}", txt.len())));
+        }
+        run_cases(&mut t, "texts", &cs, false);
     }
     // (d) hostile uncompressed cpio payloads
     let mut cs = vec![];
